@@ -8,7 +8,7 @@ The model follows the code as it is:
   installed in `Matches` (15 operators × 5 datatypes, including the error paths that leave it nil);
 * `untyped`    — `conditionMatchesValue` + `compare`, used when `Matches == nil`;
 * `extract`    — `extractValueFromSpan` (`?.NUM_DESCENDANTS`, `Fields` order, `root.` prefix, the
-  `checkedOnlyRoot` flag), with `CheckNestedFields = false`;
+  `checkedOnlyRoot` flag, the `CheckNestedFields` fallback);
 * `matchTrace` / `matchSpan` — `ruleMatchesTrace` / `ruleMatchesSpanInTrace` with their counters,
   `break`s and early `return`s;
 * `getSampleRate` — the rule loop of `GetSampleRate`.
@@ -61,6 +61,9 @@ structure Ext where
   pfloat : String → Option (Int × Nat)    -- strconv.ParseFloat(s, 64), as an exact fraction
   pbool : String → Option Bool            -- strconv.ParseBool
   rxCompiles : String → Bool              -- regexp.Compile succeeds
+  /-- `gjson.Get(json.Marshal(…), path).String()` for a path that ends on this value: the text
+  gjson returns for the JSON encoding of the value (number text, unquoted string, raw object). -/
+  jsonStr : Val → String := fun _ => ""
   rxMatch : String → String → Bool        -- regexp.MustCompile(p).MatchString(s)
 
 /-! ## strings -/
@@ -236,9 +239,14 @@ structure Span where
   data : List (String × Val)
   deriving Repr, Inhabited
 
+/-- The trace as the sampler sees it, together with the sampler's `CheckNestedFields` option.
+`maps` describes the map-valued field values: `Val.other id` is a map with these entries iff
+`maps.lookup id = some entries` (entries may again be maps: nesting by reference). -/
 structure Trace where
   spans : List Span
   root : Option Span
+  nested : Bool := false
+  maps : List (String × List (String × Val)) := []
   deriving Repr, Inhabited
 
 structure Extract where
@@ -264,12 +272,86 @@ def extractLoop (t : Trace) (s : Span) : List String → Bool → Extract
 
 def isNumDescendants (c : Cond) : Bool := hasPrefix c.field computedPrefix && c.field == numDescendants
 
-def extract (t : Trace) (s : Span) (c : Cond) : Extract :=
+/-! ### the `CheckNestedFields` fallback: `gjson.Get(json.Marshal(span.Data), field)`
+
+Modelled for paths made of plain keys separated by `.` (no gjson wildcards, escapes, array
+indices or modifiers). -/
+
+def splitDotsAux : List Char → List Char → List (List Char)
+  | [], cur => [cur.reverse]
+  | c :: cs, cur => if c = '.' then cur.reverse :: splitDotsAux cs [] else splitDotsAux cs (c :: cur)
+
+/-- the path segments of a field name -/
+def splitDots (f : String) : List String := (splitDotsAux f.toList []).map String.ofList
+
+/-- descend through map values along the path -/
+def nestedGet (maps : List (String × List (String × Val))) (entries : List (String × Val)) : List String → Option Val
+  | [] => none
+  | [k] => entries.lookup k
+  | k :: k' :: ks =>
+    match entries.lookup k with
+    | some (.other id) =>
+      match maps.lookup id with
+      | some es => nestedGet maps es (k' :: ks)
+      | none => none
+    | _ => none
+
+/-- the second field loop: the first field (taken verbatim, `root.` included) that names a nested
+value of `sp`; the result is that value's JSON text -/
+def nestedLoop (E : Ext) (t : Trace) (sp : Span) : List String → Option String
+  | [] => none
+  | f :: fs =>
+    match nestedGet t.maps sp.data (splitDots f) with
+    | some v => some (E.jsonStr v)
+    | none => nestedLoop E t sp fs
+
+/-- The pointer held by the variable `span` when the first field loop ends without a result
+(`none` = nil): every iteration starts from the span under test and switches to the root span only
+after checking that there is one. -/
+def spanAfterLoop (t : Trace) (s : Span) (fs : List String) : Option Span :=
+  fs.foldl (fun _ f =>
+    if hasPrefix f rootPrefix then
+      match t.root with
+      | some r => some r
+      | none => some s        -- `continue`: `span` is still the span under test
+    else some s) (some s)
+
+/-- the same, as a span -/
+def lastSpan (t : Trace) (s : Span) (fs : List String) : Span :=
+  match fs.getLast? with
+  | some f => if hasPrefix f rootPrefix then t.root.getD s else s
+  | none => s
+
+def nestedResult (E : Ext) (t : Trace) (sp : Span) (fs : List String) : Extract :=
+  match nestedLoop E t sp fs with
+  | some str => ⟨.str str, true, false⟩
+  | none => ⟨.nil, false, false⟩
+
+/-- `extractValueFromSpan` with its one pointer dereference that is not guarded by the code itself
+made explicit: `none` = nil-pointer panic in `json.Marshal(span.Data)`. -/
+def extractP (E : Ext) (t : Trace) (s : Span) (c : Cond) : Option Extract :=
+  if isNumDescendants c then some ⟨.int t.spans.length, true, true⟩
+  else
+    let x := extractLoop t s (effFields c) true
+    if x.ex then some x
+    else if t.nested then
+      match spanAfterLoop t s (effFields c) with
+      | none => none
+      | some sp => some (nestedResult E t sp (effFields c))
+    else some ⟨.nil, false, false⟩
+
+/-- `extractValueFromSpan` (total: `Props.C08.rules_never_panic` shows `extractP` never panics and
+equals this) -/
+def extract (E : Ext) (t : Trace) (s : Span) (c : Cond) : Extract :=
   if isNumDescendants c then ⟨.int t.spans.length, true, true⟩
-  else extractLoop t s (effFields c) true
+  else
+    let x := extractLoop t s (effFields c) true
+    if x.ex then x
+    else if t.nested then nestedResult E t (lastSpan t s (effFields c)) (effFields c)
+    else ⟨.nil, false, false⟩
 
 def condOnSpan (E : Ext) (t : Trace) (c : Cond) (s : Span) : Bool :=
-  condValue E c (extract t s c).val (extract t s c).ex
+  condValue E c (extract E t s c).val (extract E t s c).ex
 
 /-! ## `ruleMatchesTrace` -/
 
@@ -278,7 +360,7 @@ def traceCond (E : Ext) (t : Trace) (c : Cond) : List Span → Bool
   | [] => false
   | s :: rest =>
     if condOnSpan E t c s then true
-    else if (extract t s c).cor then false
+    else if (extract E t s c).cor then false
     else traceCond E t c rest
 
 /-- the loop over conditions: `some matched` at the end, `none` for the early `return false` -/
@@ -305,7 +387,7 @@ def spanConds (E : Ext) (t : Trace) (s : Span) : List Cond → SpanRes
   | [] => .all
   | c :: cs =>
     if condOnSpan E t c s then spanConds E t s cs
-    else if (extract t s c).cor then .failedRoot else .failed
+    else if (extract E t s c).cor then .failedRoot else .failed
 
 def spanLoop (E : Ext) (t : Trace) (conds : List Cond) : List Span → Bool
   | [] => false
